@@ -172,7 +172,14 @@ def run(ctx, res):
             for s2, r in wc.outs:
                 img = c07.Img(res, S.I, s2, B, wc.n, B.cs)
                 c07.rows_for(img, B, S.b, wc.n)
-    res.analysed = {"helper_outcomes": n}
+    # ------------------------------------------------------------------ ... and are accepted back by the unknown-packet parser
+    from .c09 import unknown_must_accept
+    n_acc = 0
+    for dd, adt, kind in D.parse_entries():
+        if adt.split("::")[-1].split("<")[0] == "Unknown":
+            n_acc += unknown_must_accept(F, res, dd)
+    res.floor("reject paths of the unknown-packet parser refuted for well-framed input", n_acc, 3)
+    res.analysed = {"helper_outcomes": n, "unknown_parser_reject_paths_refuted": n_acc}
     res.assumptions.append("third-party types declare MIN_PACKET_LEN >= 4 and respect the documented helper preconditions (buffer of the announced size, count <= 31)")
 
 
